@@ -26,7 +26,7 @@ RULE = ("exhaustive: every sequence of <=4 (quick: <=3) parameter items over {na
         "same ast.arguments/returns as the source (names, kinds, order, default positions; ast.dump of defaults and of "
         "annotations after unquoting string annotations; a `-> None` may be missing). ALL candidate texts (accepted "
         "or not) are also read by the model's parser and compared with CPython's verdict. Plus methods/classmethods/"
-        "staticmethods/async defs, @overload groups, string annotations, duplicate names (ValueError branch, "
+        "staticmethods/async defs, @overload groups with the decorator spelled in every way that resolves to typing.overload / typing_extensions.overload (bare, dotted module, module alias, renamed import, class-local import) and two look-alikes that do not, string annotations, duplicate names (ValueError branch, "
         "correspondence only), random signatures of 5-10 parameters with small expression defaults/annotations. "
         "Non-trivial = at least two different parameter kinds, or a default after a positional-only marker.")
 ASSUMPTIONS = [
@@ -37,6 +37,10 @@ ASSUMPTIONS = [
     "a `def` with duplicate parameter names is accepted by ast.parse but rejected by the compiler: it is not a function definition "
     "in the property's sense; the model's theorem `valid_iff_nodup` shows it is the only way into the ValueError branch",
     "the model's parser does not accept a trailing comma (never produced by inspect.Signature.__str__)",
+    "in the model a definition's `isOverload` flag is about the decorator's RESOLVED name; the harness computes it from the source by "
+    "Python's import rules (own resolver, independent of pydoctor's expandName), for every spelling of the decorator",
+    "`from typing import *` followed by a bare `@overload` is not generated: pydoctor cannot see through a star import of a module "
+    "outside the documented system (name resolution, C04's subject), the defs become plain redefinitions",
 ]
 EXPLANATION = ("Theorems: for every ast.arguments-shaped input with the parser's shape and distinct names, CPython's reading of "
                "Signature.__str__'s layout of the parameters pydoctor builds is the source's ast.arguments (annotations unquoted, "
@@ -654,15 +658,74 @@ def run_read_stream(ctx: Ctx, texts: Sequence[str]) -> None:
 
 # ------------------------------------------------------------------ overloads
 
+# ways to spell the decorator: (key, module-level lines, class-body lines, decorator text)
+# The first nine ARE typing.overload / typing_extensions.overload by Python's import rules (and pydoctor resolves
+# each of them today); the last two are look-alikes that are NOT overload (plain redefinitions).
+OVERLOAD_SPELLINGS = [
+    ("bare", ["from typing import overload"], [], "overload"),
+    ("dotted", ["import typing"], [], "typing.overload"),
+    ("module-alias", ["import typing as t"], [], "t.overload"),
+    ("renamed", ["from typing import overload as _ov"], [], "_ov"),
+    ("te-bare", ["from typing_extensions import overload"], [], "overload"),
+    ("te-dotted", ["import typing_extensions"], [], "typing_extensions.overload"),
+    ("te-module-alias", ["import typing_extensions as te"], [], "te.overload"),
+    ("te-renamed", ["from typing_extensions import overload as ov2"], [], "ov2"),
+    ("class-local-renamed", [], ["from typing import overload as _o"], "_o"),     # only used inside a class
+    ("foreign", ["from mylib import overload"], [], "overload"),
+    ("local-def", ["def overload(f): return f"], [], "overload"),
+]
+REAL_OVERLOAD = ("typing.overload", "typing_extensions.overload")
+
+
+def decorator_is_overload(module_src: str, in_class: bool, deco: str) -> bool:
+    """Python's own answer, independent of pydoctor: follow the import / def bindings of the module body
+    (then of the class body) and see whether the decorator expression names typing[_extensions].overload."""
+    tree = ast.parse(module_src)
+
+    def bindings(body, env):
+        for st in body:
+            if isinstance(st, ast.Import):
+                for al in st.names:
+                    if al.asname:
+                        env[al.asname] = al.name
+                    else:
+                        env[al.name.split(".")[0]] = al.name.split(".")[0]
+            elif isinstance(st, ast.ImportFrom) and st.level == 0:
+                for al in st.names:
+                    if al.name != "*":
+                        env[al.asname or al.name] = st.module + "." + al.name
+            elif isinstance(st, (ast.FunctionDef, ast.AsyncFunctionDef, ast.ClassDef)):
+                env[st.name] = "<local>." + st.name
+            elif isinstance(st, ast.Assign):
+                for t in st.targets:
+                    if isinstance(t, ast.Name):
+                        env[t.id] = "<local>." + t.id
+        return env
+    # bindings in force when the first decorated def is reached (good enough: generated imports come first)
+    env = bindings([st for st in tree.body if not (isinstance(st, ast.FunctionDef) and st.name.startswith("g"))], {})
+    if in_class:
+        cls = [st for st in tree.body if isinstance(st, ast.ClassDef)][0]
+        env = bindings([st for st in cls.body if not isinstance(st, ast.FunctionDef)], dict(env))
+    head, _, rest = deco.partition(".")
+    if head not in env:
+        return False
+    full = env[head] + ("." + rest if rest else "")
+    return full in REAL_OVERLOAD
+
+
 def run_overloads(ctx: Ctx, ngroups: int) -> None:
-    """`@overload` x k + implementation (oracle), and arbitrary def sequences (correspondence on the bookkeeping)"""
+    """`@overload` x k + implementation (oracle), and arbitrary def sequences (correspondence on the bookkeeping);
+    the decorator is spelled in every way that is (or only looks like) typing.overload."""
     from pydoctor import model
     rng = ctx.rng
     reqs, impls, pay = [], [], []
     for g in range(ngroups):
         wellformed = g % 2 == 0
         in_class = rng.random() < 0.5
-        style = rng.choice(["overload", "typing.overload"])
+        key, modlines, clslines, deco = OVERLOAD_SPELLINGS[(g // 2) % len(OVERLOAD_SPELLINGS)]
+        if clslines:
+            in_class = True
+        # (name index, decorated?, params, ret, FunctionDef)
         defs: List[Tuple[int, bool, str, str, ast.AST]] = []
         if wellformed:
             k = rng.randint(1, 3)
@@ -671,7 +734,7 @@ def run_overloads(ctx: Ctx, ngroups: int) -> None:
                 seq = [(1, False)] + seq + [(1, False)] if rng.random() < 0.5 else seq + [(1, True), (1, False)]
         else:
             seq = [(rng.randint(0, 1), rng.random() < 0.55) for _ in range(rng.randint(1, 6))]
-        for name, ov in seq:
+        for name, decorated in seq:
             while True:
                 params = random_signature(rng, 0, 4, exprs=False)
                 if in_class:
@@ -680,21 +743,25 @@ def run_overloads(ctx: Ctx, ngroups: int) -> None:
                 fn = try_parse(params, ret)
                 if fn is not None:
                     break
-            defs.append((name, ov, params, ret, fn))
+            defs.append((name, decorated, params, ret, fn))
         ind = "    " if in_class else ""
-        lines = ["import typing", "from typing import overload", ""]
+        lines = list(modlines) + [""]
         if in_class:
             lines.append("class K:")
-        for name, ov, params, ret, fn in defs:
-            if ov:
-                lines.append(ind + "@" + style)
+            lines += [ind + l for l in clslines]
+        for name, decorated, params, ret, fn in defs:
+            if decorated:
+                lines.append(ind + "@" + deco)
             lines.append("%sdef g%d(%s)%s: ..." % (ind, name, params, ret))
         src = "\n".join(lines) + "\n"
+        real = decorator_is_overload(src, in_class, deco)      # Python's verdict on the spelling
+        is_ov = [d[1] and real for d in defs]                   # is this def an overload (resolved name)?
+        payload = {"kind": "overloads", "source": src, "spelling": key, "decorator_is_overload": real}
         system = build_system(src)
         parent = system.allobjects["m.K" if in_class else "m"]
         out = []
         for nm, ob in parent.contents.items():
-            if not isinstance(ob, model.Function):
+            if not isinstance(ob, model.Function) or not re.match(r"^g\d+$", nm):
                 continue
             S = "None" if ob.signature is None else " ".join(display_tokens(shown_signature(ob, False)[0]))
             O = " ; ".join(" ".join(display_tokens(shown_signature(o, False)[0])) for o in ob.overloads)
@@ -705,28 +772,38 @@ def run_overloads(ctx: Ctx, ngroups: int) -> None:
             D = " ; ".join(" ".join(display_tokens(t)) for t, _ in shown)
             out.append("f%s S %s O %s D %s" % (nm[1:], S, O, D))
             if wellformed:
-                srcs = [d for d in defs if "g%d" % d[0] == nm]
-                ovs = [d for d in srcs if d[1]]
+                idx = [i for i, d in enumerate(defs) if "g%d" % d[0] == nm]
+                ovs = [defs[i] for i in idx if is_ov[i]]
                 if ovs:
-                    if len(shown) != len(ovs):
-                        ctx.fail("overload-count", {"kind": "overloads", "source": src},
-                                 f"{len(ovs)} overloads written, {len(shown)} shown")
-                    for (t, kw), d in zip(shown, ovs):
-                        v = oracle(d[4], t)
-                        if v:
-                            ctx.fail("overload:" + v[0], {"kind": "overloads", "source": src}, "overload does not show its own signature: " + v[1])
+                    if not ob.overloads:
+                        ctx.fail("overload-not-shown", payload,
+                                 f"{len(ovs)} overloads written as @{deco} ({key}: {'; '.join(modlines + clslines)}) but the page "
+                                 f"shows only one signature {shown[0][0]!r}: no overload shows its own signature")
+                    elif len(shown) != len(ovs):
+                        ctx.fail("overload-count", payload, f"{len(ovs)} overloads written (@{deco}, {key}), {len(shown)} shown")
+                    else:
+                        for (t, kw), d in zip(shown, ovs):
+                            v = oracle(d[4], t)
+                            if v:
+                                ctx.fail("overload:" + v[0], payload, "overload does not show its own signature: " + v[1])
                 else:
-                    v = oracle(srcs[-1][4], shown[0][0])
+                    # plain (re)definitions: the last one is what the name means, and what must be shown
+                    if ob.overloads:
+                        ctx.fail("overload-invented", payload, f"@{deco} ({key}) is not typing.overload but {len(ob.overloads)} overloads are shown")
+                    v = oracle(defs[idx[-1]][4], shown[0][0])
                     if v:
-                        ctx.fail(v[0], {"kind": "overloads", "source": src}, v[1])
-        req = "signature defs %d %s" % (len(defs), " ".join("%d %s %s" % (n, "o" if ov else "d", fields_of(fn)) for n, ov, _, _, fn in defs))
+                        ctx.fail(v[0], payload, v[1])
+        req = "signature defs %d %s" % (len(defs), " ".join("%d %s %s" % (d[0], "o" if ov else "d", fields_of(d[4]))
+                                                          for d, ov in zip(defs, is_ov)))
         reqs.append(req)
         impls.append("ok " + " || ".join(out))
-        pay.append({"kind": "overloads", "source": src})
-        nt = any(d[1] for d in defs)
-        ctx.case(req, nt, {"source": src, "impl": impls[-1]} if nt and wellformed and ctx.dist.get("stream:overloads", 0) < 2 else None)
+        pay.append(payload)
+        nt = any(is_ov)
+        ctx.case(key + " " + req, nt, {"source": src, "impl": impls[-1]} if nt and wellformed and key == "renamed"
+                 and not any(isinstance(x, dict) and x.get("source", "").startswith("from typing import overload as") for x in ctx.samples) else None)
         ctx.count("stream:overloads")
         ctx.count("overloads:" + ("wellformed" if wellformed else "arbitrary"))
+        ctx.count("overload-spelling:" + key)
     ctx.compare("overloads", reqs, impls, pay)
 
 
@@ -805,7 +882,7 @@ def run(ctx: Ctx) -> None:
             read_texts.append(c.params)
     run_cases(ctx, cases)
     run_read_stream(ctx, read_texts)
-    run_overloads(ctx, 300 if ctx.quick else 4000)
+    run_overloads(ctx, 440 if ctx.quick else 4400)
 
 
 # ------------------------------------------------------------------ replay
